@@ -69,6 +69,29 @@ def scoping2():
                 yield ("scope2#%d %s-%s" % (n, order[0], order[1]), {"build.ninja": top, "a.ninja": a, "b.ninja": b})
 
 
+def rule_shadowing():
+    """A rule name declared again in the scope of a subninja file (allowed: the nearest declaration counts, there and in
+    files nested below; the including file keeps its own) or of an include file (the same scope: a duplicate). Also
+    validations among the default targets of a manifest without a `default` statement (every output nobody consumes)."""
+    n = 0
+    for k1, k2 in itertools.product(("subninja", "include"), repeat=2):
+        for d1, d2, d0 in itertools.product((False, True), repeat=3):
+            top = ("rule r\n  command = top $in $out\n" if d0 else "rule r\n  command = top0 $in $out\nrule other\n  command = o\n")
+            top += "build before: r in\n%s a.ninja\nbuild after: r in\n" % k1
+            a = ("rule r\n  command = A $in $out\n" if d1 else "") + "build a_out: r in\n%s b.ninja\nbuild a_after: r in\n" % k2
+            b = ("rule r\n  command = B $in $out\n" if d2 else "") + "build b_out: r in\n"
+            n += 1
+            yield ("shadow#%d %s-%s %d%d%d" % (n, k1, k2, d0, d1, d2), {"build.ninja": top, "a.ninja": a, "b.ninja": b})
+    for vmask in range(8):
+        t = "rule r\n  command = c $in $out\n"
+        t += "build out: r in" + (" |@ out.ok" if vmask & 1 else "") + "\n"
+        t += "build out.ok: r out" + (" |@ deep.ok" if vmask & 2 else "") + "\n"
+        t += "build deep.ok: r out.ok\n"
+        t += ("build unrelated: r in2\n" if vmask & 4 else "")
+        n += 1
+        yield ("shadow#%d roots-with-validations %d" % (n, vmask), {"build.ninja": t})
+
+
 def version_scope():
     """`$^` needs `ninja_required_version >= 1.14` "in the build file": a parent and two files it includes / subninjas,
     each declaring 1.14, 1.13 or nothing and each using `$^` or not, in every order of the two kinds."""
